@@ -19,7 +19,8 @@ LEVEL_TEXT = ("Generated programs of 1-6 producer threads (post, timers with pas
               "exactly once unless cancel() returned true, throwing jobs keep the workers alive.")
 LEVEL_NOTE = ("Thread schedules are sampled by the OS scheduler with generated noise, not enumerated; data races are only seen when TSan "
               "observes both accesses. Liveness is decided by a quiescence argument (loop blocked indefinitely, nothing ready, all other "
-              "threads waiting), for the pool only by a watchdog (inconclusive).")
+              "threads waiting); for the pool by the kernel state of its worker threads (all blocked, no context switch over three samples, every "
+              "poster finished or waiting, a job whose post() returned still owed). A wall-clock watchdog is only a safety net (inconclusive).")
 DESIGN_REF = "3/C17"
 RULE = ("case = (reactor, final mode drain|stop-race, socket pairs, per-producer operation lists, epochs with stop mode / restart mode / probe "
         "order, close-and-reuse scenarios). Non-trivial: more than one epoch (stop, reset, run again), a descriptor closed with an armed wait and its "
@@ -47,7 +48,7 @@ def include_known():
 
 def budget(tier):
     # cases per unit: lt = loop/tsan (one unit per reactor), la = loop/asan (reactor drawn per case), pt / pa = pool tsan / asan; sh = shards of each
-    return dict(lt=2200, la=3500, pt=3000, pa=4000, sh=1) if tier == "quick" else dict(lt=16000, la=20000, pt=30000, pa=40000, sh=2)
+    return dict(lt=2200, la=3500, pt=1500, pa=2200, sh=1) if tier == "quick" else dict(lt=16000, la=20000, pt=12000, pa=16000, sh=2)
 
 
 def units(bins, tier, seed):
@@ -67,6 +68,7 @@ def units(bins, tier, seed):
     if include_known():    # all reactors x {re-arm after cancel, cancel after queued arm, number re-used via dup2, via close + socketpair}
         # + restart grid: reactor x {stop from another thread while the loop sleeps, stop from a handler} x {same thread, new thread runs again}
         #   x first operation after reset() {post, timer, timer+cancel, io+ready, io+cancel, stop}  (72 two-epoch cases of the loop property)
+        # + pool grid: workers 1..4 x throwing jobs {0, w-1, w, w+1, 2w} x {std::exception, int} x {post at once, post after the pool went idle} (80 cases)
         # + close grid: reactor x {closed by another thread while the loop sleeps, by a handler with operations queued (issued before run() /
         #   inside a running loop), by a handler} x closed wait {in, out} x new wait {in, out, both} x {cancel_io_events + ::close, stream_socket::close}
         us.append(Unit("c17_sched_asan.fixed", [bins["c17_sched_asan"]], env={"C17_MODE": "fixed"}, group="fixed", timeout=1800))
@@ -77,7 +79,7 @@ def floor(tier):
     b = budget(tier)
     f = {"loop-asan": b["la"] * b["sh"], "pool-tsan": b["pt"] * b["sh"], "pool-asan": b["pa"] * b["sh"]}
     if include_known():
-        f["fixed"] = 12 + 144 + 72
+        f["fixed"] = 12 + 144 + 72 + 80
     for rn in REACTORS.values():
         f["loop-tsan-" + rn] = b["lt"] * b["sh"]
     return f
@@ -98,6 +100,10 @@ def replay(path):
 IOS = "booster/lib/aio/src/io_service.cpp"
 TP = "src/thread_pool.cpp"
 MUTATIONS = [
+    # pool: post() wakes a worker only when the queue was empty - with more than one worker, jobs posted in a row to an idle pool are
+    # started one at a time only, a job that needs its siblings (or a long one in front) leaves the others unstarted for ever
+    dict(name="pool-post-notifies-only-when-queue-was-empty", edits=[(TP, "\t\t\tqueue_.push_back(std::make_pair(id,job));\n\t\t\tcond_.notify_one();",
+         "\t\t\tbool was_empty=queue_.empty();\n\t\t\tqueue_.push_back(std::make_pair(id,job));\n\t\t\tif(was_empty)\n\t\t\t\tcond_.notify_one();")]),
     # epoll reactor: the per-descriptor cache is not updated when epoll_ctl fails - EPOLL_CTL_DEL of a descriptor that was closed before its
     # queued cancel ran leaves "registered" behind, the next socket with that number is never added (same class as seeded/C17-3)
     dict(name="epoll-cache-stale-after-failed-del", edits=[("booster/lib/aio/src/reactor.cpp",
